@@ -216,7 +216,9 @@ def render(rec, seed):
 # ------------------------------------------------------------------------------------------------
 # bounds of the property (counts <= 64, shift counts small, no uninterruptible big-integer work)
 # ------------------------------------------------------------------------------------------------
-_SMALL = r"\s*-?(\d{1,4})\.?(?![\w$.])"
+# a small literal shift count, not continued by an operator that binds tighter than the shift ('3 + big',
+# '3 * big', '3 - -big') or by a call '3 (big)', whose value would be the count
+_SMALL = r"\s*-?(\d{1,4})\.?(?![\w$.])(?![ \t]*[-+*(])"
 _SHIFT = re.compile(r"<<|>>|(?<![\w$.])_")
 _REPEAT = re.compile(r"repeat\b\s*(\S*)", re.I)
 _ALIGN = re.compile(r"align\b\s*(\S*)", re.I)
@@ -483,9 +485,7 @@ def cyclic_definition(text):
                 tree = m["parser"].parse(MAIN, text)
             except m["reports"].UnrecoverableError:
                 tree = None
-    except m["reports"].UnrecoverableError:
-        tree = None
-    except RecursionError:
+    except Exception:       # the parser itself may be what crashes: the classifier then works line-wise
         tree = None
     if tree is not None:
         _walk(tree.body, graph, set(), None)
@@ -530,3 +530,81 @@ def shape_tags(text, outcome, exc):
     except Exception as ex:  # classifier trouble never decides anything
         tags.append("classifier-failed:" + type(ex).__name__)
     return tags
+
+
+# ------------------------------------------------------------------------------------------------
+# confirmation and minimisation of bad runs (each test in a process of its own)
+# ------------------------------------------------------------------------------------------------
+def is_good(o):
+    errs = any(sv in ("error", "critical") for sv in o[2])
+    return (o[0] == "ok" and not errs) or (o[0] == "error" and errs)
+
+
+def signature(text, o):
+    """what kind of bad run this is: outcome class, exception type and place (without line number)"""
+    errs = any(sv in ("error", "critical") for sv in o[2])
+    if o[0] == "exception":
+        e = o[1] or ""
+        name = e.split(":")[0].split(" ")[0]
+        where = e.split(" @ ")[-1] if " @ " in e else ""
+        parts = where.split(":")
+        place = (parts[0] + ":" + parts[-1]) if len(parts) >= 3 else where
+        if name == "RecursionError" and "loop.mac" in text:
+            place = "recursive-include"
+        return "exception:" + name + ("@" + place if place else "")
+    if o[0] == "hang":
+        return "hang"
+    if o[0] == "error" and not errs:
+        return "failure-without-diagnostic"
+    if o[0] == "ok" and errs:
+        return "success-after-error"
+    return "good"
+
+
+def confirm_task(arg):
+    """(idx, text, handler, cpu) -> (idx, result tuple of the fresh run, signature, tags)"""
+    idx, text, handler, cpu = arg
+    o = fresh(text, handler, cpu=cpu)
+    sig = signature(text, o)
+    tags = shape_tags(text, o[0], o[1]) if sig != "good" else []
+    return (idx, o, sig, tags)
+
+
+def minimise_task(arg):
+    """(text, handler, signature, cpu, budget) -> a smaller text with the same signature (and the same
+    cyclic-definition classification): lines first, then runs of characters"""
+    text, handler, sig, cpu, budget = arg
+    cyc = cyclic_definition(text)
+    tests = [0]
+
+    def same(t):
+        if tests[0] >= budget or not t.strip():
+            return False
+        tests[0] += 1
+        o = fresh(t, handler, cpu=cpu)
+        return signature(t, o) == sig and cyclic_definition(t) == cyc and safe(t)[0]
+
+    def ddmin(units, join):
+        n = 2
+        while len(units) >= 2 and tests[0] < budget:
+            size = max(1, len(units) // n)
+            removed = False
+            for i in range(0, len(units), size):
+                cand = units[:i] + units[i + size:]
+                if cand and same(join(cand)):
+                    units = cand
+                    n = max(n - 1, 2)
+                    removed = True
+                    break
+            if not removed:
+                if size == 1:
+                    break
+                n = min(len(units), n * 2)
+        return units
+    lines = ddmin(text.split("\n"), "\n".join)
+    text = "\n".join(lines)
+    if len(text) <= 200:
+        toks = re.findall(r"\s+|\w+|.", text)
+        toks = ddmin(toks, "".join)
+        text = "".join(toks)
+    return text
